@@ -195,6 +195,10 @@ pub fn run_one(tier: &str, check: &str, seed: u64, tmp: &Path, log: Option<&mut 
             let evs = crate::t4::generate_for(seed, check);
             with_runtime(crate::t4::run_events(seed, &evs, tmp, "g"))
         }
+        "t17" => {
+            let (cfg, reqs) = crate::t17::generate(seed);
+            with_runtime(crate::t17::run_reqs(seed, cfg, &reqs, tmp, "g"))
+        }
         "t15" => {
             let evs = crate::t15::generate(seed);
             with_runtime(crate::t15::run_events(seed, &evs, tmp, "g"))
@@ -242,6 +246,14 @@ pub fn run_list(
                 .map(|e| serde_json::from_value(e.clone()))
                 .collect::<Result<_, _>>()?;
             with_runtime(crate::t4::run_events(seed, &evs, tmp, tag))
+        }
+        "t17" => {
+            let cfg: crate::t17::Cfg = serde_json::from_value(config.clone())?;
+            let reqs: Vec<crate::t17::Req> = events
+                .iter()
+                .map(|e| serde_json::from_value(e.clone()))
+                .collect::<Result<_, _>>()?;
+            with_runtime(crate::t17::run_reqs(seed, cfg, &reqs, tmp, tag))
         }
         "t15" => {
             let evs: Vec<crate::t15::Ev> = events
